@@ -29,6 +29,11 @@ def variants(algo, tier):
         out.append(("exact", {"init": "random", "exact": True}))
         for nn in ([0], [1], [0, 1], "LASTONLY"):
             out.append((f"nn_modes-{nn}", {"init": "random", "nn_modes": nn}))
+            out.append((f"nn_modes-{nn}-svd", {"init": "svd", "nn_modes": nn}))
+        out.append(("nn_modes-ALL-as-list-svd", {"init": "svd", "nn_modes": "ALLLIST"}))
+        out.append(("svd-fixed0", {"init": "svd", "fixed_modes": [0]}))
+        out.append(("svd-fixed-last", {"init": "svd", "fixed_modes": "LASTONLY"}))
+        out.append(("nn_modes-[0, 1]-svd-fixed0", {"init": "svd", "nn_modes": [0, 1], "fixed_modes": [0]}))
     elif algo == "non_negative_tucker":
         for init in ("svd", "random"):
             out.append((init, {"init": init}))
@@ -51,6 +56,8 @@ def variants(algo, tier):
             for init in ("random", "svd"):
                 out.append((f"nn-{nn}-{init}", {"init": init, "nn_modes": nn, "linesearch": False}))
         out.append(("nn-[0, 2]-linesearch", {"init": "random", "nn_modes": [0, 2], "linesearch": True}))
+        out.append(("nn-[2]-linesearch", {"init": "random", "nn_modes": [2], "linesearch": True}))
+        out.append(("nn-[0, 2]-linesearch-svd", {"init": "svd", "nn_modes": [0, 2], "linesearch": True}))
         out.append(("nn-[0]-normalize", {"init": "random", "nn_modes": [0], "linesearch": False, "normalize_factors": True}))
     return out
 
@@ -137,6 +144,8 @@ class C10(Check):
                 v = [float(v.split(":")[1])] * ndim
             elif v == "LASTONLY":
                 v = [ndim - 1]
+            elif v == "ALLLIST":
+                v = list(range(ndim))
             elif isinstance(v, str) and v.startswith("DICT:"):
                 v = {(ndim - 1 if t == "LAST" else int(t)): True for t in v.split(":")[1].split(",")}
             elif isinstance(v, dict):
